@@ -33,6 +33,50 @@ class Snapshot:
         self.solves = []    # (status, objective) per solve()
         self.yields = []
 
+    def solver_faults(self, solver="SCIP", tol=1e-6):
+        """replay the recorded model (rows + the exclusion cuts present at each solve) through an INDEPENDENT solver:
+        -> [(iteration, CBC's answer, independent optimum)] for every solve where CBC answered 'optimal' with a strictly worse
+        objective, or 'infeasible' although a feasible point exists.  The same LP goes to both solvers, so a non-empty list is a
+        fault of the CBC backend on this model, not a difference between model and code."""
+        if getattr(self, "_faults", None) is not None:
+            return self._faults
+        from ortools.linear_solver import pywraplp
+        out = []
+        for it, (st, obj) in enumerate(self.solves):
+            m = pywraplp.Solver.CreateSolver(solver)
+            if m is None:
+                break
+            inf = m.infinity()
+            V = {}
+            for n, k, lb, ub in self.vars:
+                lbf = float(lb) if lb is not None else -inf
+                ubf = float(ub) if ub is not None else inf
+                V[n] = m.BoolVar(n) if k == "B" else (m.IntVar(lbf, ubf, n) if k == "I" else m.NumVar(lbf, ubf, n))
+            rows = [(c, lb, ub) for c, lb, ub, _ in self.rows] + list(self.cuts[:it])
+            for coefs, lb, ub in rows:
+                c = m.Constraint(float(lb) if lb is not None else -inf, float(ub) if ub is not None else inf)
+                for n, x in coefs.items():
+                    c.SetCoefficient(V[n], float(x))
+            o = m.Objective()
+            for n, x in self.obj.items():
+                o.SetCoefficient(V[n], float(x))
+            o.SetOffset(float(self.obj_const))
+            if self.minimize:
+                o.SetMinimization()
+            else:
+                o.SetMaximization()
+            m.SetTimeLimit(20000)
+            r = m.Solve()
+            if r != pywraplp.Solver.OPTIMAL:
+                continue
+            ref = m.Objective().Value()
+            if st == "infeasible":
+                out.append((it, "infeasible", ref))
+            elif st == "optimal" and obj is not None and (obj - ref > tol * max(1.0, abs(ref)) if self.minimize else ref - obj > tol * max(1.0, abs(ref))):
+                out.append((it, obj, ref))
+        self._faults = out
+        return out
+
     def canonical(self, rename=lambda n: n):
         """canonical structure: variables {key: (kind, lb, ub)}, rows as a sorted list of (sorted coef tuples, rel, rhs),
         equalities merged, duplicate rows removed, objective as sorted tuples. `rename` maps names to role keys."""
